@@ -356,6 +356,39 @@ func c19Siblings(c *Ctx, ms map[string]*fsmx.Machine) {
 			}
 		}
 		r.Check(ok, "C19/R3", "from-dump:with-setup-args", "FromDump hands the dump's own State and Payload to the machine", c.Pos(fn.Pos()), "WithSetup is not called with (i.dump.State, i.dump.Payload)")
+		// the machine is chosen by the pool whose registration C19/R1 models
+		inits := ssax.CallsTo(fn, load.Module+"/fsm/fsm_pool.Init")
+		mbs := ssax.CallsTo(fn, load.Module+"/fsm/fsm_pool.(FSMPool).MachineByState")
+		poolOK := len(inits) == 1 && len(mbs) == 1
+		if poolOK {
+			poolOK = ssax.ResultOf(mbs[0].Common().Args[0], inits[0], -1) && strings.HasSuffix(ssax.Path(mbs[0].Common().Args[1]), ".dump.State")
+			el := sliceElems(inits[0].Common().Args[0])
+			news := 0
+			for _, e := range el {
+				if strings.HasSuffix(ssax.Path(e), "_fsm.New()") {
+					news++
+				}
+			}
+			if news != 3 {
+				poolOK = false
+			}
+			for _, call := range ssax.Calls(fn, false, func(ci ssa.CallInstruction) bool { o := ssax.CalleeObj(ci); return o != nil && o.Name() == "WithSetup" }) {
+				if !strings.Contains(ssax.Path(call.Common().Value), "MachineByState(") {
+					poolOK = false
+				}
+			}
+		}
+		r.Check(poolOK, "C19/R3", "from-dump:machine-from-pool", "FromDump restores through fsm_pool.Init(three machines).MachineByState(dump.State) — the registration that C19/R1 proves complete", c.Pos(fn.Pos()),
+			"the machine is not obtained from the pool's MachineByState(dump.State): the state->machine mapping used for restoring is not the one proved to cover every reachable state")
+		if mb := c.Fn("C19/R3", "fsm/fsm_pool", "FSMPool", "MachineByState"); mb != nil {
+			okMB := false
+			ssax.Instrs(mb, func(in ssa.Instruction) {
+				if lk, isLk := in.(*ssa.Lookup); isLk && strings.HasSuffix(ssax.Path(lk.X), "p.states") && ssax.Path(lk.Index) == "state" {
+					okMB = true
+				}
+			})
+			r.Check(okMB, "C19/R3", "fsm_pool.MachineByState:lookup", "MachineByState resolves through p.states[state]", c.Pos(mb.Pos()), "lookup p.states[state] not found")
+		}
 		// the unmarshal error edge returns
 		um := ssax.Calls(fn, false, func(ci ssa.CallInstruction) bool { o := ssax.CalleeObj(ci); return o != nil && o.Name() == "Unmarshal" })
 		good := len(um) > 0
